@@ -82,7 +82,8 @@ func c13Run(c *Ctx) {
 		} else {
 			anyRequired = true
 		}
-		g.Inputs = append(g.Inputs, mon.GInput{Name: in.name, DT: ref.F32, Dims: in.dims})
+		// (the signature is rank and extents: a declaration that leaves the element type out declares the same shape)
+		g.Inputs = append(g.Inputs, mon.GInput{Name: in.name, DT: ref.F32, Dims: in.dims, NoElem: r.Chance(0.08)})
 		if in.shadowed && r.Chance(0.25) {
 			// a default without elements (extent 0 on an open axis) that no node reads: it is a
 			// default like any other, the input stays optional
